@@ -6,5 +6,13 @@ add("C02", "other",
     "Numeric agreement with an independent full-DFT oracle is checked by a bounded stand-in. Mixed proof + bounded, hence 'other'.",
     "contract-based deductive verification (sidecar contracts -> VCs from the real AST -> z3) + bounded runtime-contract stand-in")
 pending = "check not built yet in this session; will be claimed once its obligations and stand-in run green on the unchanged tree"
-for p in ["C01","C03","C04","C05","C06","C07","C08","C09","C10","C11","C12","C13","C14","C15","C16","C17","C18","C19","C20"]:
+add("C01", "other",
+    "Deductive kernel (STFT): compute_chunk is proved to preserve a data invariant relating its buffer, counters and the ghost "
+    "stream of all samples fed so far, and to hand _compute_frame exactly the documented frames, for every frame length, shift <= length, "
+    "chunk length and history, in all three framing modes; finalize is proved to emit exactly the remaining frames of the whole-signal "
+    "specification (count and contents, with the symmetric reflection) and compute_full to meet the same specification; so any chunking "
+    "followed by finalize equals compute_full by induction over chunks. The short-integration computer and value-level round-off are "
+    "decided by a bounded stand-in (chunked vs whole runs of the real code). Mixed proof + bounded, hence 'other'.",
+    "contract-based deductive verification (loop/data invariants with ghost stream -> VCs from the real AST -> z3) + bounded runtime-contract stand-in")
+for p in ["C03","C04","C05","C06","C07","C08","C09","C10","C11","C12","C13","C14","C15","C16","C17","C18","C19","C20"]:
     NOT_APPLICABLE[p] = pending
